@@ -192,6 +192,11 @@ def run(ctx):
     for rnd in range(ctx.n(2, 12)):
         for label, sg, verify in signers:
             name, ip, app = P.rand_interest_args(rng)
+            if rng.random() < 0.35:
+                # a caller-supplied ParametersSha256 placeholder that is NOT the last component (legal): the
+                # components after it are still part of the signed portion
+                k = rng.randint(0, len(name))
+                name = name[:k] + [G.tlv(2, bytes(32))] + name[k:] + [G.tlv(8, b'after')] * rng.choice([0, 1, 2])
             r = C01.one_interest(ctx, M, name, ip, app if rnd % 2 else rng.choice([None, b'', b'pp']), sg, label)
             if r:
                 check_packet(ctx, M, 'interest', r[0], r[1], verify, label)
